@@ -555,6 +555,7 @@ class ServeMpsMedia(MediaRequestBase):
         if representation.timescale != timing_ref.timescale:
             start_time = int(math.floor(
                 start_time * representation.timescale / timing_ref.timescale))
+        first_seg: int = representation.get_segment_index(start_time)[0]
         if seg_time is not None:
             start_time += seg_time
         mod_seg, seg_start_tc, origin_time = representation.get_segment_index(
@@ -576,4 +577,9 @@ class ServeMpsMedia(MediaRequestBase):
                 # origin_time += representation.mediaDuration
                 # mod_seg -= representation.num_media_segments
                 # assert mod_seg > 0
+        else:
+            # a request by $Time$: number the segment from the start of the period
+            seg_num = representation.start_number + mod_seg - first_seg
+            if seg_num < representation.start_number:
+                raise ValueError('Segment beyond end of media')
         return SegmentPosition(mod_seg, origin_time, seg_num)
